@@ -235,23 +235,48 @@ IMPL_METHODS = ('transform', 'inverse_transform', 'longitudinal_derivative')
 def rule_vertical_padding(chk, prog):
   rule = 'C07.3-vertical-pad-crop'
   n = 0
+  # who-may-use, on values (not on syntax): a reference to an implementation transform may only occur as the function
+  # handed to _with_vertical_padding together with the same grid's mesh — whether written inline, through a local
+  # alias, positionally or by keyword
+  def impl_ref(t):
+    if t.k == 'bound' and t.a[1].rsplit('.', 1)[-1] in IMPL_METHODS and '.spherical_harmonic.' in t.a[1] and 'SphericalHarmonics' in t.a[1]:
+      return t.a[1].rsplit('.', 1)[-1]
+    if t.k == 'attr' and t.a[1] in IMPL_METHODS and t.a[0].k == 'attr' and t.a[0].a[1] == 'spherical_harmonics':
+      return t.a[1]
+    return None
   for f in all_functions(prog):
     if f.cls is not None and f.cls.name in ('RealSphericalHarmonics', 'FastSphericalHarmonics', 'SphericalHarmonics', 'RealSphericalHarmonicsWithZeroImag'):
       continue
-    parents = {}
-    for node in ast.walk(f.node):
-      for ch in ast.iter_child_nodes(node):
-        parents[id(ch)] = node
-    for node in ast.walk(f.node):
-      if isinstance(node, ast.Attribute) and node.attr in IMPL_METHODS and isinstance(node.value, ast.Attribute) and node.value.attr == 'spherical_harmonics':
-        par = parents.get(id(node))
-        ok = isinstance(par, ast.Call) and node in par.args and unparse(par.func).endswith('_with_vertical_padding') and par.args[0] is node
-        n += 1
-        chk.check(ok, rule, f'{f.qualname.replace("dinosaur.", "")}: spherical_harmonics.{node.attr} is used only as the function wrapped by _with_vertical_padding',
-                  unparse(par)[:120] if par is not None else '', (f.file, node.lineno), '_with_vertical_padding(self.spherical_harmonics.' + node.attr + ', self.spmd_mesh)', unparse(par)[:120] if par is not None else '')
-        if ok:
-          mesh = par.args[1] if len(par.args) > 1 else None
-          chk.check(mesh is not None and unparse(mesh).endswith('spmd_mesh'), rule, f'{f.qualname.replace("dinosaur.", "")}: the wrapper of {node.attr} receives the grid\'s mesh', unparse(mesh) if mesh is not None else 'missing', (f.file, node.lineno))
+    ev0 = sym.Evaluator(prog, sym.Options(model_vertical_padding=False, max_depth=0, opaque={f'{SH}._with_vertical_padding'}))
+    try:
+      v, ctx, env = ev0.run(f)
+    except RecursionError:
+      continue
+    values = [v] + [x for x in env.values() if isinstance(x, Term)] + [c for _, c, _ in ev0.calls if isinstance(c, Term)]
+    wrapped, refs = {}, {}
+    seen = set()
+    for val in values:
+      for t in sym.walk(val, seen):
+        if t.k == 'call' and util.callee_qual(t).endswith(f'{SH}._with_vertical_padding'):
+          kw = util.call_kwargs(t)
+          if kw.get('f') is not None and impl_ref(kw['f']):
+            wrapped[kw['f']] = (t, kw.get('mesh'))
+        if impl_ref(t):
+          refs.setdefault(t, t.loc)
+    # direct calls of an implementation method are recorded as callee terms
+    direct = [c for _, c, _ in ev0.calls if isinstance(c, Term) and impl_ref(c)]
+    q = f.qualname.replace('dinosaur.', '')
+    for r in refs:
+      name = impl_ref(r)
+      ok = r in wrapped and r not in direct
+      n += 1
+      chk.check(ok, rule, f'{q}: spherical_harmonics.{name} is used only as the function wrapped by _with_vertical_padding',
+                sym.show(wrapped[r][0], maxdepth=3)[:120] if r in wrapped else 'used directly', (f.file, f.lineno),
+                f'_with_vertical_padding(self.spherical_harmonics.{name}, self.spmd_mesh)', 'direct call / reference outside the wrapper')
+      if ok:
+        mesh = wrapped[r][1]
+        same_grid = mesh is not None and mesh.k == 'attr' and mesh.a[1] == 'spmd_mesh' and r.a[0].k == 'attr' and mesh.a[0] == r.a[0].a[0]
+        chk.check(same_grid, rule, f'{q}: the wrapper of {name} receives the mesh of the same grid', sym.show(mesh) if mesh is not None else 'missing', (f.file, f.lineno))
   ev = sym.Evaluator(prog, sym.Options(model_vertical_padding=False, opaque={f'{SH}._vertical_pad', f'{SH}._vertical_crop'}))
   f = prog.func(f'{SH}._with_vertical_padding')
   v, _, _ = ev.run(f)
